@@ -210,7 +210,7 @@ func TestVerifC19(t *testing.T) {
 		"True-Client-IP: " + c19Forged,
 		"X-Forwarded-Host: " + c19Forged,
 	}
-	maxSeg := vrt.Pick(r, 5, 6)
+	maxSeg := vrt.Pick(r, 5, 7)
 	r.Bound("max_path_segments", maxSeg)
 
 	vrt.Part(r, "paths", func(emit func(c19Case)) {
